@@ -30,6 +30,7 @@ import os
 
 import ZODB.fsIndex
 import ZODB.POSException
+from ZODB.FileStorage.format import DATA_HDR_LEN
 from ZODB.FileStorage.format import TRANS_HDR_LEN
 from ZODB.FileStorage.format import CorruptedDataError
 from ZODB.FileStorage.format import DataHeader
@@ -87,25 +88,34 @@ class PackCopier(FileStorageFormatter):
         h = self._read_txn_header(tpos)
         tend = tpos + h.tlen
         pos = self._file.tell()
+        # A transaction may hold several records of one object (an undo of
+        # several transactions): the last one counts, as for load and as in
+        # FileStorage._data_find.
+        data_hdr = None
+        data_pos = 0
         while pos < tend:
             h = self._read_data_header(pos)
             if h.oid == oid:
-                # Make sure this looks like the right data record
-                if h.plen == 0:
-                    # This is also a backpointer.  Gotta trust it.
-                    return pos
-                if h.plen != len(data):
-                    # The expected data doesn't match what's in the
-                    # backpointer.  Something is wrong.
-                    logger.error("Mismatch between data and backpointer at %d",
-                                 pos)
-                    return 0
-                _data = self._file.read(h.plen)
-                if data != _data:
-                    return 0
-                return pos
+                data_hdr = h
+                data_pos = pos
             pos += h.recordlen()
-        return 0
+        if data_hdr is None:
+            return 0
+        # Make sure this looks like the right data record
+        if data_hdr.plen == 0:
+            # This is also a backpointer.  Gotta trust it.
+            return data_pos
+        if data_hdr.plen != len(data):
+            # The expected data doesn't match what's in the
+            # backpointer.  Something is wrong.
+            logger.error("Mismatch between data and backpointer at %d",
+                         data_pos)
+            return 0
+        self._file.seek(data_pos + DATA_HDR_LEN)
+        _data = self._file.read(data_hdr.plen)
+        if data != _data:
+            return 0
+        return data_pos
 
     def copy(self, oid, serial, data, prev_txn, txnpos, datapos):
         prev_pos = self._resolve_backpointer(prev_txn, oid, data)
